@@ -57,6 +57,65 @@ let symtab_of s =
         (name, { e_sym = sym; e_meta = ms })
       | [] -> failwith "bad entry") (split ';' s))
 
+(* ---- tokens (the harness 'lex' mode output, locations stripped) ---- *)
+let string_of_bytes l = String.init (List.length l) (fun i -> Char.chr (int_of_n (List.nth l i)))
+let name_tab tab = List.map (fun (b, i) -> (string_of_bytes b, i)) tab
+let tabs = lazy [
+  ("z80", (name_tab z80_op_names, name_tab z80_reg_names, name_tab z80_flag_names));
+  ("sm83", (name_tab sm83_op_names, name_tab sm83_reg_names, name_tab sm83_flag_names));
+  ("6502", (name_tab mos_op_names, name_tab mos_reg_names, [])) ]
+let arch_id = function "z80" -> N0 | "sm83" -> n_of_int 1 | _ -> n_of_int 2
+let directive_of = function
+  | "Org" -> DOrg | "Here" -> DHere | "Macro" -> DMacro | "EndMacro" -> DEndMacro | "Defl" -> DDefl
+  | "Defn" -> DDefn | "ReDefl" -> DReDefl | "ReDefn" -> DReDefn | "IsDef" -> DIsDef | "UnDef" -> DUnDef
+  | "Echo" -> DEcho | "Die" -> DDie | "Assert" -> DAssert | "Db" -> DDb | "Dw" -> DDw | "Ds" -> DDs
+  | "Include" -> DInclude | "Incbin" -> DIncbin | "Struct" -> DStruct | "EndStruct" -> DEndStruct
+  | "SizeOf" -> DSizeOf | "Align" -> DAlign | "String" -> DString | "Bin" -> DBin | "Hex" -> DHex
+  | "Label" -> DLabel | "Meta" -> DMeta | "GetMeta" -> DGetMeta | "EndMeta" -> DEndMeta | "Each" -> DEach
+  | "EndEach" -> DEndEach | "Count" -> DCount | "Parse" -> DParse | "Segment" -> DSegment | "If" -> DIf
+  | "EndIf" -> DEndIf | "Entropy" -> DEntropy
+  | s -> failwith ("directive " ^ s)
+let sym_of = function
+  | "~" -> SyTilde | "!" -> SyBang | "%" -> SyMod | "^" -> SyCaret | "&" -> SyAmp | "&&" -> SyAmpAmp
+  | "*" -> SyStar | "#" -> SyHash | "(" -> SyLParen | ")" -> SyRParen | "{" -> SyLBrace | "}" -> SyRBrace
+  | "-" -> SyMinus | "==" -> SyEqEq | "!=" -> SyNe | "+" -> SyPlus | "|" -> SyPipe | "||" -> SyPipePipe
+  | ":" -> SyColon | "," -> SyComma | "<" -> SyLt | ">" -> SyGt | "<=" -> SyLe | ">=" -> SyGe
+  | "<<" -> SyShl | ">>" -> SyShr | "<<<" -> SyShlL | ">>>" -> SyShrL | "/" -> SyDiv | "\\" -> SyBackslash
+  | "?" -> SyQuestion
+  | s -> failwith ("symbol " ^ s)
+let token_of arch t =
+  let (ops, regs, flags) = List.assoc arch (Lazy.force tabs) in
+  let body = match String.rindex_opt t '@' with
+    | Some i when i > 0 && String.contains (after i t) ':' -> String.sub t 0 i
+    | _ -> t in
+  match body.[0] with
+  | 'N' -> TNewline | 'C' -> TComment
+  | 'S' -> TString (unhex (after 1 body))
+  | '#' -> TNumber (z_of_int (int_of_string (after 1 body)))
+  | 'O' -> TOp (List.assoc (after 1 body) ops)
+  | 'R' -> TReg (List.assoc (after 1 body) regs)
+  | 'F' -> TFlag (List.assoc (after 1 body) flags)
+  | 'D' -> TDir (directive_of (after 1 body))
+  | 'Y' -> TSym (sym_of (after 1 body))
+  | 'L' -> let k = (match body.[1] with 'g' -> LkGlobal | 'l' -> LkLocal | _ -> LkDirect) in
+    TLabel (k, unhex (after 2 body))
+  | _ -> failwith ("token " ^ t)
+let tokens_of arch s = if s = "" then [] else List.map (token_of arch) (List.filter (fun x -> x <> "") (split ' ' s))
+
+let dump_symtab st =
+  (* first binding of each name wins (the table is duplicate free by construction) *)
+  let ents = List.map (fun (name, e) ->
+      let v = match e.e_sym with
+        | SValue v -> string_of_int (int_of_z v)
+        | SExpr ex -> (match eval_top st ex with Val v -> string_of_int (int_of_z v) | _ -> "?") in
+      let ms = List.sort compare (List.map (fun (k, v) -> hex_of_bytes k ^ ":" ^ hex_of_bytes v) e.e_meta) in
+      hex_of_bytes name ^ "=" ^ v ^ "~" ^ String.concat "," ms) st in
+  String.concat ";" (List.sort compare ents)
+
+let files_of s =
+  if s = "" then [] else
+    List.map (fun it -> let i = String.index it '=' in (unhex (String.sub it 0 i), unhex (after (i + 1) it))) (split '|' s)
+
 let show_eres = function
   | Val v -> Printf.sprintf "VAL\t%d" (int_of_z v)
   | Unsolved -> "NONE"
@@ -182,6 +241,27 @@ let dispatch mode f =
           ids := idx 0 !issued :: !ids
         end) (split ',' ops);
     Printf.sprintf "IDS %s BAD 0" (String.concat "," (List.rev_map string_of_int !ids))
+  | "masm", (arch :: toks :: rest) ->
+    (* arch, tokens, [incbin files as namehex=contenthex|...], [opts] *)
+    let files = match rest with f :: _ -> files_of f | [] -> [] in
+    let opts = match rest with _ :: o :: _ -> o | _ -> "" in
+    (match run_asm (arch_id arch) files (tokens_of arch toks) with
+     | Ok (d, st) ->
+       "OK\t" ^ hex_of_bytes d ^ (if opts = "syms" then "\tSYMS\t" ^ dump_symtab st else "")
+     | Diag k -> Printf.sprintf "ERR\t%d" (int_of_n k)
+     | Crash _ -> "PANIC")
+  | "mparse", (arch :: toks :: rest) ->
+    let files = match rest with f :: _ -> files_of f | [] -> [] in
+    (match run_parse (arch_id arch) files (tokens_of arch toks) with
+     | Ok s ->
+       let kind = function LByte -> 0 | LSByte -> 1 | LWord -> 2 | LSpace _ -> 3 | LAssert -> 4 in
+       let len = function LByte | LSByte -> 1 | LWord -> 2 | LSpace n -> int_of_nat n | LAssert -> 0 in
+       Printf.sprintf "OK\t%s\tLINKS\t%s\tHERE\t%d" (hex_of_bytes s.a_data)
+         (String.concat "," (List.map (fun l -> Printf.sprintf "%d:%d:%d" (kind l.l_kind)
+                                         (if l.l_kind = LAssert then 0 else int_of_nat l.l_off) (len l.l_kind)) s.a_links))
+         (int_of_z s.a_here)
+     | Diag k -> Printf.sprintf "ERR\t%d" (int_of_n k)
+     | Crash _ -> "PANIC")
   | _ -> "BADMODE"
 
 let () =
